@@ -186,6 +186,9 @@ class Crate:
     def tys(self, i):
         return self.types[i]["s"] if i is not None else "?"
 
+    def tys_of(self, tdict):
+        return tdict["s"]
+
     def loc(self, sp):
         if not sp:
             return "?"
